@@ -140,6 +140,7 @@ type Case struct {
 	Clock    int64          `json:"clock"`
 	MapSeed  uint64         `json:"mapseed"`
 	Hostile  bool           `json:"hostile,omitempty"`
+	Slash    bool           `json:"slash,omitempty"` // the data directory is named with a trailing path separator
 	Crash    *Crash         `json:"crash,omitempty"`
 	Damage   *Damage        `json:"damage,omitempty"`
 	Free     int64          `json:"free,omitempty"`     // simulated free disk space (0 = plenty)
